@@ -10,6 +10,17 @@ every link is *replayable* (any such stack ending in the link's root extends by
 one entry to one ending in the link's head). New-head creation, link creation
 and merging, clones for further tokens, limited re-reductions and revisits all
 preserve it, whatever their control flow.
+
+Soundness of the packed forest (`parseGLR_forest_sound`): the invariant also says
+that every packed possibility of every link is locally right (`PossOK`) — a token
+edge shifted from the link's root, or a production whose child links form a path
+(`KChain`) from the link's root up to a node that stands where the link's head
+stands and reduces by that production, the goto of the root being the head's
+state. These facts only mention states and positions up to layout and link ends,
+so they survive every later change of the graph. Every tree obtained by choosing
+one possibility per link (`TreeOf`) then replays over every stack that reaches
+the link's root (`tree_replay`, by recursion on the tree), hence below an
+accepted head it is a derivation tree of the start symbol over the input.
 -/
 namespace Pg
 namespace GLR
@@ -31,6 +42,104 @@ def Replay (g : Grammar) (T : Table) (inp : Input) (rootSt rootPos headSt headPo
   ∀ st r, StackD g inp T st r → topOf st = rootSt → inp.skip r = inp.skip rootPos →
     ∃ t r', StackD g inp T ((headSt, t) :: st) r' ∧ inp.skip r' = inp.skip headPos
 
+/-- Two nodes with the same state at the same position up to layout. -/
+def NEq (inp : Input) (s : GState) (a b : Nat) : Prop :=
+  (s.node a).st = (s.node b).st ∧ inp.skip (s.node a).pos = inp.skip (s.node b).pos
+
+theorem NEq.refl (s : GState) (a : Nat) : NEq inp s a a := ⟨rfl, rfl⟩
+theorem NEq.symm {s : GState} {a b : Nat} (h : NEq inp s a b) : NEq inp s b a := ⟨h.1.symm, h.2.symm⟩
+theorem NEq.trans {s : GState} {a b c : Nat} (h1 : NEq inp s a b) (h2 : NEq inp s b c) : NEq inp s a c :=
+  ⟨h1.1.trans h2.1, h1.2.trans h2.2⟩
+
+/-- `ks` is a path of links from node `a` (below) up to node `b`, joints up to `NEq`. -/
+inductive KChain (inp : Input) (s : GState) : Nat → List Nat → Nat → Prop where
+  | nil (a b : Nat) (ha : a < s.nodes.size) (hb : b < s.nodes.size) (h : NEq inp s a b) : KChain inp s a [] b
+  | cons (a k b : Nat) (ks : List Nat) (ha : a < s.nodes.size) (hk : k < s.links.size)
+      (hhd : (s.link k).head < s.nodes.size) (hrt : (s.link k).root < s.nodes.size)
+      (hr : NEq inp s (s.link k).root a) (rest : KChain inp s (s.link k).head ks b) :
+      KChain inp s a (k :: ks) b
+
+theorem KChain.congr_start {s : GState} {a a' b : Nat} {ks : List Nat} (h : KChain inp s a ks b)
+    (ha' : a' < s.nodes.size) (he : NEq inp s a a') : KChain inp s a' ks b := by
+  cases h with
+  | nil _ _ ha hb h => exact .nil _ _ ha' hb (he.symm.trans h)
+  | cons _ k _ ks ha hk hhd hrt hr rest => exact .cons _ k _ ks ha' hk hhd hrt (hr.trans he) rest
+
+theorem KChain.congr_end {s : GState} {a b b' : Nat} {ks : List Nat} (h : KChain inp s a ks b)
+    (hb' : b' < s.nodes.size) (he : NEq inp s b b') : KChain inp s a ks b' := by
+  induction h with
+  | nil a b ha hb h => exact .nil _ _ ha hb' (h.trans he)
+  | cons a k b ks ha hk hhd hrt hr _ ih => exact .cons _ k _ ks ha hk hhd hrt hr (ih he)
+
+/-- What a packed possibility of a link from `hd` down to `rt` has to be: a shifted token edge, or a
+production with a path of child links from `rt` up to a node `e` that stands where `hd` stands and
+reduces by it, the goto of `rt` being `hd`'s state. -/
+def PossOK (g : Grammar) (T : Table) (inp : Input) (s : GState) (hd rt : Nat) : Poss → Prop
+  | .term a st en => Action.shift (s.node hd).st ∈ T.actions (s.node rt).st a ∧ st = inp.skip (s.node rt).pos ∧
+      (∃ l, inp.mlen a st = some l ∧ 0 < l ∧ en = st + l) ∧ inp.skip (s.node hd).pos = inp.skip en
+  | .nonterm pid kids => ∃ pr e, g.prod? pid = some pr ∧ kids.length = pr.rhs.length ∧ KChain inp s rt kids e ∧
+      (∃ x, Action.reduce pid ∈ T.actions (s.node e).st x) ∧
+      T.goto (s.node rt).st pr.lhs = some (s.node hd).st ∧ inp.skip (s.node e).pos = inp.skip (s.node hd).pos
+
+/-- States that agree on what `KChain` and `PossOK` look at. -/
+structure Same (inp : Input) (s s' : GState) : Prop where
+  size : s.nodes.size ≤ s'.nodes.size
+  nd : ∀ i, i < s.nodes.size → (s'.node i).st = (s.node i).st ∧ inp.skip (s'.node i).pos = inp.skip (s.node i).pos
+  lsize : s.links.size ≤ s'.links.size
+  lk : ∀ i, i < s.links.size → (s'.link i).head = (s.link i).head ∧ (s'.link i).root = (s.link i).root
+
+theorem NEq.same {s s' : GState} {a b : Nat} (h : NEq inp s a b) (hs : Same inp s s') (ha : a < s.nodes.size)
+    (hb : b < s.nodes.size) : NEq inp s' a b := by
+  obtain ⟨a1, a2⟩ := hs.nd a ha
+  obtain ⟨b1, b2⟩ := hs.nd b hb
+  exact ⟨by rw [a1, b1]; exact h.1, by rw [a2, b2]; exact h.2⟩
+
+theorem KChain.same {s s' : GState} {a b : Nat} {ks : List Nat} (h : KChain inp s a ks b) (hs : Same inp s s') :
+    KChain inp s' a ks b := by
+  induction h with
+  | nil a b ha hb h => exact .nil _ _ (Nat.lt_of_lt_of_le ha hs.size) (Nat.lt_of_lt_of_le hb hs.size) (h.same hs ha hb)
+  | cons a k b ks ha hk hhd hrt hr _ ih =>
+    obtain ⟨l1, l2⟩ := hs.lk k hk
+    refine .cons _ k _ ks (Nat.lt_of_lt_of_le ha hs.size) (Nat.lt_of_lt_of_le hk hs.lsize)
+      (by rw [l1]; exact Nat.lt_of_lt_of_le hhd hs.size) (by rw [l2]; exact Nat.lt_of_lt_of_le hrt hs.size) ?_ ?_
+    · rw [l2]; exact hr.same hs hrt ha
+    · rw [l1]; exact ih
+
+theorem KChain.end_lt {s : GState} {a b : Nat} {ks : List Nat} (h : KChain inp s a ks b) : b < s.nodes.size := by
+  induction h with
+  | nil a b ha hb h => exact hb
+  | cons a k b ks ha hk hhd hrt hr _ ih => exact ih
+
+theorem PossOK.same {s s' : GState} {hd rt : Nat} {p : Poss} (h : PossOK g T inp s hd rt p) (hs : Same inp s s')
+    (hh : hd < s.nodes.size) (hr : rt < s.nodes.size) : PossOK g T inp s' hd rt p := by
+  obtain ⟨a1, a2⟩ := hs.nd hd hh
+  obtain ⟨b1, b2⟩ := hs.nd rt hr
+  cases p with
+  | term a st en =>
+    obtain ⟨h1, h2, h3, h4⟩ := h
+    exact ⟨by rw [a1, b1]; exact h1, by rw [b2]; exact h2, h3, by rw [a2]; exact h4⟩
+  | nonterm pid kids =>
+    obtain ⟨pr, e, h1, h2, h3, h4, h5, h6⟩ := h
+    obtain ⟨c1, c2⟩ := hs.nd e h3.end_lt
+    exact ⟨pr, e, h1, h2, h3.same hs, by rw [c1]; exact h4, by rw [b1, a1]; exact h5, by rw [c2, a2]; exact h6⟩
+
+/-- `PossOK` only depends on the two nodes up to `NEq`. -/
+theorem PossOK.congr {s : GState} {hd rt hd' rt' : Nat} {p : Poss} (h : PossOK g T inp s hd rt p)
+    (eh : NEq inp s hd hd') (er : NEq inp s rt rt') (hr' : rt' < s.nodes.size) : PossOK g T inp s hd' rt' p := by
+  cases p with
+  | term a st en =>
+    obtain ⟨h1, h2, h3, h4⟩ := h
+    exact ⟨by rw [← eh.1, ← er.1]; exact h1, by rw [← er.2]; exact h2, h3, by rw [← eh.2]; exact h4⟩
+  | nonterm pid kids =>
+    obtain ⟨pr, e, h1, h2, h3, h4, h5, h6⟩ := h
+    exact ⟨pr, e, h1, h2, h3.congr_start hr' er, h4, by rw [← er.1, ← eh.1]; exact h5, by rw [← eh.2]; exact h6⟩
+
+theorem Same.of_eq {s s' : GState} (hn : s'.nodes = s.nodes) (hl : s'.links = s.links) : Same inp s s' := by
+  have hnode : ∀ i, s'.node i = s.node i := by intro i; simp [GState.node, hn]
+  have hlink : ∀ i, s'.link i = s.link i := by intro i; simp [GState.link, hl]
+  exact ⟨by rw [hn]; exact Nat.le_refl _, fun i _ => by rw [hnode]; exact ⟨rfl, rfl⟩,
+    by rw [hl]; exact Nat.le_refl _, fun i _ => by rw [hlink]; exact ⟨rfl, rfl⟩⟩
+
 structure GInv (g : Grammar) (T : Table) (inp : Input) (consume : Bool) (s : GState) : Prop where
   nodes : ∀ i, i < s.nodes.size → NodeOK g T inp consume (s.node i)
   links : ∀ i, i < s.links.size → (s.link i).head < s.nodes.size ∧ (s.link i).root < s.nodes.size ∧
@@ -45,6 +154,7 @@ structure GInv (g : Grammar) (T : Table) (inp : Input) (consume : Bool) (s : GSt
     ∃ t, (s.node x.1).tok = some t ∧ Action.shift x.2 ∈ T.actions (s.node x.1).st t.term
   accepted : ∀ h ∈ s.accepted, h < s.nodes.size ∧
     ∃ t, (s.node h).tok = some t ∧ Action.accept ∈ T.actions (s.node h).st t.term
+  poss : ∀ i, i < s.links.size → ∀ p ∈ (s.link i).poss, PossOK g T inp s (s.link i).head (s.link i).root p
 
 theorem node_lt {s : GState} {i : Nat} (h : i < s.nodes.size) : s.node i = s.nodes[i] := by
   simp [GState.node, Array.getD, h]
@@ -64,7 +174,13 @@ theorem GInv.graph_eq {consume : Bool} {s s' : GState} (h : GInv g T inp consume
     GInv g T inp consume s' := by
   have hnode : ∀ i, s'.node i = s.node i := by intro i; simp [GState.node, hn]
   have hlink : ∀ i, s'.link i = s.link i := by intro i; simp [GState.link, hl]
-  refine ⟨?_, ?_, ?_, ?_, ?_, ?_, ?_⟩
+  have hP : ∀ i, i < s'.links.size → ∀ p ∈ (s'.link i).poss, PossOK g T inp s' (s'.link i).head (s'.link i).root p := by
+    intro i hi p hp
+    rw [hl] at hi
+    rw [hlink] at hp ⊢
+    obtain ⟨l1, l2, _⟩ := h.links i hi
+    exact (h.poss i hi p hp).same (Same.of_eq hn hl) l1 l2
+  refine ⟨?_, ?_, ?_, ?_, ?_, ?_, ?_, hP⟩
   · intro i hi; rw [hnode]; exact h.nodes i (by rw [← hn]; exact hi)
   · intro i hi
     simp only [hnode, hlink, hn]
@@ -124,10 +240,14 @@ theorem Ext.trans {a b c : GState} (h1 : Ext a b) (h2 : Ext b c) : Ext a c := by
     obtain ⟨b1, b2⟩ := h2.lsame i (Nat.lt_of_lt_of_le hi h1.lsize)
     exact ⟨by rw [b1, a1], by rw [b2, a2]⟩
 
+theorem Same.of_ext {s s' : GState} (h : Ext s s') : Same inp s s' :=
+  ⟨h.size, fun i hi => ⟨(h.same i hi).1, by rw [(h.same i hi).2.1]⟩, h.lsize, h.lsame⟩
+
 /-- `createLink` keeps the invariant when the new link is replayable. -/
 theorem createLink_ok {consume : Bool} (s : GState) (hinv : GInv g T inp consume s)
     (head root st en : Nat) (poss : List Poss) (hh : head < s.nodes.size) (hr : root < s.nodes.size)
-    (hrep : Replay g T inp (s.node root).st (s.node root).pos (s.node head).st (s.node head).pos) :
+    (hrep : Replay g T inp (s.node root).st (s.node root).pos (s.node head).st (s.node head).pos)
+    (hposs : ∀ p ∈ poss, PossOK g T inp s head root p) :
     GInv g T inp consume (createLink s head root st en poss).1 ∧ Ext s (createLink s head root st en poss).1 ∧
       (createLink s head root st en poss).2.2 < (createLink s head root st en poss).1.links.size ∧
       ((createLink s head root st en poss).1.node ((createLink s head root st en poss).1.link
@@ -162,7 +282,39 @@ theorem createLink_ok {consume : Bool} (s : GState) (hinv : GInv g T inp consume
       by_cases hk : k = i
       · subst hk; rw [getD_set_eq _ _ _ _ hil]; exact ⟨rfl, rfl⟩
       · rw [getD_set_ne _ _ _ _ _ hk]; exact ⟨rfl, rfl⟩
-    refine ⟨⟨?_, ?_, ?_, hinv.active, hinv.forActor, hinv.forShifter, hinv.accepted⟩,
+    have hkey := List.find?_some hfind
+    simp only [Bool.and_eq_true, beq_iff_eq] at hkey
+    have hsame : Same inp s { s with links := s.links.setIfInBounds i { s.link i with poss := (s.link i).poss ++ poss } } :=
+      ⟨Nat.le_refl _, fun _ _ => ⟨rfl, rfl⟩, by simp, fun k _ => hlinkhr k⟩
+    have hP : ∀ k, k < ({ s with links := s.links.setIfInBounds i { s.link i with poss := (s.link i).poss ++ poss } } :
+        GState).links.size → ∀ p ∈ (({ s with links := s.links.setIfInBounds i { s.link i with poss := (s.link i).poss ++ poss } } :
+        GState).link k).poss, PossOK g T inp
+          { s with links := s.links.setIfInBounds i { s.link i with poss := (s.link i).poss ++ poss } }
+          (({ s with links := s.links.setIfInBounds i { s.link i with poss := (s.link i).poss ++ poss } } :
+            GState).link k).head
+          (({ s with links := s.links.setIfInBounds i { s.link i with poss := (s.link i).poss ++ poss } } :
+            GState).link k).root p := by
+      intro k hk p hp
+      simp only [Array.size_setIfInBounds] at hk
+      rw [(hlinkhr k).1, (hlinkhr k).2]
+      obtain ⟨l1, l2, _⟩ := hinv.links k hk
+      by_cases hki : k = i
+      · subst hki
+        have hps : (({ s with links := s.links.setIfInBounds k { s.link k with poss := (s.link k).poss ++ poss } } :
+            GState).link k).poss = (s.link k).poss ++ poss := by
+          simp only [GState.link]; rw [getD_set_eq _ _ _ _ hil]
+        rw [hps] at hp
+        rcases List.mem_append.mp hp with hp | hp
+        · exact (hinv.poss k hk p hp).same hsame l1 l2
+        · have h1 : NEq inp s head (s.link k).head := ⟨hst.symm, hpos.symm⟩
+          have h2 : NEq inp s root (s.link k).root := ⟨hkey.1.2.symm, by rw [hkey.2]⟩
+          exact ((hposs p hp).congr h1 h2 l2).same hsame l1 l2
+      · have hps : ({ s with links := s.links.setIfInBounds i { s.link i with poss := (s.link i).poss ++ poss } } :
+            GState).link k = s.link k := by
+          simp only [GState.link]; rw [getD_set_ne _ _ _ _ _ hki]
+        rw [hps] at hp
+        exact (hinv.poss k hk p hp).same hsame l1 l2
+    refine ⟨⟨?_, ?_, ?_, hinv.active, hinv.forActor, hinv.forShifter, hinv.accepted, hP⟩,
       ⟨Nat.le_refl _, fun _ _ => ⟨rfl, rfl, rfl, rfl⟩, by simp, fun k _ => hlinkhr k⟩,
       by simpa using hil, ?_, ?_, by first | rfl | trivial, by first | rfl | trivial,
       by first | rfl | trivial, by first | rfl | trivial, by first | rfl | trivial,
@@ -200,7 +352,20 @@ theorem createLink_ok {consume : Bool} (s : GState) (hinv : GInv g T inp consume
       simp only [s', GState.link]; exact getD_push_eq _ _ _
     have hsz : s'.nodes.size = s.nodes.size := by simp [s']
     have hlsz : s'.links.size = s.links.size + 1 := by simp [s']
-    refine ⟨⟨?_, ?_, ?_, ?_, ?_, ?_, ?_⟩, ⟨by rw [hsz]; exact Nat.le_refl _, fun k _ => hnf k, by rw [hlsz]; omega,
+    have hsame : Same inp s s' := ⟨by rw [hsz]; exact Nat.le_refl _, fun k _ => ⟨(hnf k).1, by rw [(hnf k).2.1]⟩,
+      by rw [hlsz]; omega, fun k hk => by rw [hlinkO k hk]; exact ⟨rfl, rfl⟩⟩
+    have hP : ∀ k, k < s'.links.size → ∀ p ∈ (s'.link k).poss, PossOK g T inp s' (s'.link k).head (s'.link k).root p := by
+      intro k hk p hp
+      rw [hlsz] at hk
+      by_cases hkn : k = s.links.size
+      · subst hkn
+        rw [hlinkN] at hp ⊢
+        exact (hposs p hp).same hsame hh hr
+      · have hk' : k < s.links.size := by omega
+        rw [hlinkO k hk'] at hp ⊢
+        obtain ⟨l1, l2, _⟩ := hinv.links k hk'
+        exact (hinv.poss k hk' p hp).same hsame l1 l2
+    refine ⟨⟨?_, ?_, ?_, ?_, ?_, ?_, ?_, hP⟩, ⟨by rw [hsz]; exact Nat.le_refl _, fun k _ => hnf k, by rw [hlsz]; omega,
         fun k hk => by rw [hlinkO k hk]; exact ⟨rfl, rfl⟩⟩,
       by rw [hlsz]; omega, ?_, ?_, by first | rfl | trivial, by first | rfl | trivial,
       by first | rfl | trivial, by first | rfl | trivial, by first | rfl | trivial,
@@ -333,11 +498,11 @@ theorem mem_of_headActive {s : GState} {state n : Nat} (h : s.headActive state =
 /-- Frames of the path search are chains from their node up to the reducing head. -/
 def FrameOK (g : Grammar) (T : Table) (inp : Input) (s : GState) (head : Nat) (n : Nat) (fr : Frame) : Prop :=
   fr.node < s.nodes.size ∧ Chain g T inp s fr.node head fr.results.length ∧
-    fr.results.length + fr.length = n ∧ 1 ≤ fr.length
+    fr.results.length + fr.length = n ∧ 1 ≤ fr.length ∧ KChain inp s fr.node fr.results head
 
 theorem FrameOK.ext {s s' : GState} {head n : Nat} {fr : Frame} (h : FrameOK g T inp s head n fr)
     (he : Ext s s') (hh : head < s.nodes.size) : FrameOK g T inp s' head n fr :=
-  ⟨Nat.lt_of_lt_of_le h.1 he.size, h.2.1.ext he h.1 hh, h.2.2.1, h.2.2.2⟩
+  ⟨Nat.lt_of_lt_of_le h.1 he.size, h.2.1.ext he h.1 hh, h.2.2.1, h.2.2.2.1, h.2.2.2.2.same (Same.of_ext he)⟩
 
 /-- Specification of a function usable as the recursive `_do_reductions`. -/
 def DRSpec (g : Grammar) (T : Table) (inp : Input) (consume : Bool) (P : Nat)
@@ -355,7 +520,8 @@ def RDSpec (g : Grammar) (T : Table) (inp : Input) (consume : Bool) (P : Nat) (h
   ∀ (s : GState) (root : Nat) (kids : List Nat) (st en : Nat),
     GInv g T inp consume s → APos inp s P → head < s.nodes.size → (s.node head).st = st0 →
     inp.skip (s.node head).pos = P → (s.node head).tok.isSome = true → root < s.nodes.size →
-    Chain g T inp s root head n → Post g T inp consume P s (rd s root kids st en)
+    Chain g T inp s root head n → KChain inp s root kids head → kids.length = n →
+    Post g T inp consume P s (rd s root kids st en)
 
 theorem revisitFold_ok {consume : Bool} {P : Nat} {dr : GState → Nat → Nat → Option Nat → GState}
     (hdr : DRSpec g T inp consume P dr) (term lid : Nat) :
@@ -475,6 +641,9 @@ theorem parentsFold_ok {consume : Bool} {P : Nat} {head n st0 : Nat}
         (by simp [topOf, hparst]) (by rw [hp1, hparpos])
       refine ⟨stk2 ++ [((sa.node (sa.link par).head).st, t)], r2, by simpa using hs2, by simp [hl2], ?_, hp2⟩
       simpa using ht2
+    have hkc : KChain inp sa (sa.link par).root (par :: fr.results) head :=
+      .cons _ par _ _ lrt hparlt lhd lrt (NEq.refl sa _)
+        (hfr.2.2.2.2.congr_start lhd ⟨hparst.symm, hparpos.symm⟩)
     simp only [List.foldl_cons]
     by_cases hl0 : (len != 0) = true
     · -- push a frame
@@ -486,10 +655,10 @@ theorem parentsFold_ok {consume : Bool} {P : Nat} {head n st0 : Nat}
       have hnew : FrameOK g T inp sa head n
           { node := (sa.link par).root, results := par :: fr.results, length := len,
             lastP := lastOf lastP par, trav := trav || viaUpd } := by
-        refine ⟨lrt, by simpa using hchain, ?_, ?_⟩
+        refine ⟨lrt, by simpa using hchain, ?_, ?_, hkc⟩
         · show (par :: fr.results).length + len = n
           have hA := hfr.2.2.1
-          have hB := hfr.2.2.2
+          have hB := hfr.2.2.2.1
           simp only [List.length_cons]
           omega
         · show 1 ≤ len
@@ -509,11 +678,11 @@ theorem parentsFold_ok {consume : Bool} {P : Nat} {head n st0 : Nat}
         have hn : fr.results.length + 1 = n := by
           simp only [bne_iff_ne, ne_eq, Decidable.not_not] at hl0
           have hA := hfr.2.2.1
-          have hB := hfr.2.2.2
+          have hB := hfr.2.2.2.1
           omega
         have hpost := hrd sa (sa.link par).root (par :: fr.results) (sa.link par).s
           (sa.link ((lastOf lastP par).getD par)).e
-          h1 h2 hh hst hpos htok lrt (by rw [← hn]; exact hchain)
+          h1 h2 hh hst hpos htok lrt (by rw [← hn]; exact hchain) hkc (by rw [← hn]; simp)
         generalize rd sa (sa.link par).root (par :: fr.results) (sa.link par).s
           (sa.link ((lastOf lastP par).getD par)).e = s1 at hpost
         have e := hpost.2.1
@@ -562,8 +731,13 @@ theorem pushNode_ok {consume : Bool} (s : GState) (hinv : GInv g T inp consume s
   have hnodeN : s'.node s.nodes.size = x := by simp only [s', GState.node]; exact getD_push_eq _ _ _
   have hlink : ∀ k, s'.link k = s.link k := fun k => rfl
   have hsz : s'.nodes.size = s.nodes.size + 1 := by simp [s']
-  refine ⟨⟨?_, ?_, ?_, ?_, ?_, ?_, ?_⟩, ⟨by rw [hsz]; omega, fun k hk => by rw [hnodeO k hk]; exact ⟨rfl, rfl, rfl, rfl⟩,
-    Nat.le_refl _, fun k _ => ⟨rfl, rfl⟩⟩, hnodeN⟩
+  have hext : Ext s s' := ⟨by rw [hsz]; omega, fun k hk => by rw [hnodeO k hk]; exact ⟨rfl, rfl, rfl, rfl⟩,
+    Nat.le_refl _, fun k _ => ⟨rfl, rfl⟩⟩
+  have hP : ∀ k, k < s'.links.size → ∀ p ∈ (s'.link k).poss, PossOK g T inp s' (s'.link k).head (s'.link k).root p := by
+    intro k hk p hp
+    obtain ⟨l1, l2, _⟩ := hinv.links k hk
+    exact (hinv.poss k hk p hp).same (Same.of_ext hext) l1 l2
+  refine ⟨⟨?_, ?_, ?_, ?_, ?_, ?_, ?_, hP⟩, hext, hnodeN⟩
   · intro k hk
     rw [hsz] at hk
     by_cases hkn : k = s.nodes.size
@@ -624,6 +798,7 @@ theorem reductions_ok (hw : T.wf g = true) (consume : Bool) (P : Nat) :
         inp.skip (s.node head).pos = P → (s.node head).tok.isSome = true →
         g.prod? pid = some pr → Chain g T inp s root head pr.rhs.length →
         (∃ x, Action.reduce pid ∈ T.actions (s.node head).st x) →
+        KChain inp s root kids head → kids.length = pr.rhs.length →
         Post g T inp consume P s (reduce g T fuel s head root pid kids st en)) ∧
       DRSpec g T inp consume P (fun s head pid upd => doReductions g T fuel s head pid upd) ∧
       (∀ (s : GState) (head pid : Nat) (upd : Option Nat) (frames : List Frame) (pr : Prod),
@@ -638,7 +813,7 @@ theorem reductions_ok (hw : T.wf g = true) (consume : Bool) (P : Nat) :
   induction fuel with
   | zero =>
     refine ⟨?_, ?_, ?_⟩
-    · intro s head root pid kids st en pr hinv hap _ _ _ _ _ _ _
+    · intro s head root pid kids st en pr hinv hap _ _ _ _ _ _ _ _ _
       simp only [reduce]; exact ⟨hinv, Ext.refl s, hap⟩
     · intro s head pid upd hinv hap _ _ _ _ _
       simp only [doReductions]; exact ⟨hinv, Ext.refl s, hap⟩
@@ -648,7 +823,7 @@ theorem reductions_ok (hw : T.wf g = true) (consume : Bool) (P : Nat) :
     obtain ⟨ihR, ihD, ihP⟩ := ih
     refine ⟨?_, ?_, ?_⟩
     · -- `_reduce`
-      intro s head root pid kids st en pr hinv hap hh hr hpos htok hp hchain hx
+      intro s head root pid kids st en pr hinv hap hh hr hpos htok hp hchain hx hk hkl
       simp only [reduce, hp]
       cases hg : T.goto (s.node root).st pr.lhs with
       | none => exact post_of_graph_eq hinv hap rfl rfl rfl rfl rfl rfl
@@ -667,6 +842,11 @@ theorem reductions_ok (hw : T.wf g = true) (consume : Bool) (P : Nat) :
               (by rw [hahpos, hpos])
           obtain ⟨c1, c2, c3, c4, c5, c6, c7, c8, c9, c10, c11, c12, c13⟩ :=
             createLink_ok s hinv ah root st en [Poss.nonterm pid kids] hahlt hr hrep
+              (by
+                intro p hp'
+                simp only [List.mem_singleton] at hp'
+                subst hp'
+                exact ⟨pr, head, hp, hkl, hk, hx, by rw [hahst]; exact hg, by rw [hpos, hahpos]⟩)
           generalize createLink s ah root st en [Poss.nonterm pid kids] = res at c1 c2 c3 c4 c5 c6 c7 c8 c9 c10 c11 c12 c13
           obtain ⟨s1, created, lid⟩ := res
           simp only at c1 c2 c3 c4 c5 c6 c7 c8 c9 c10 c11 c12 c13 ⊢
@@ -736,6 +916,14 @@ theorem reductions_ok (hw : T.wf g = true) (consume : Bool) (P : Nat) :
             rw [(p2.same root hr).1, (p2.same root hr).2.1, p3]; exact hrep0
           obtain ⟨c1, c2, c3, c4, c5, c6, c7, c8, c9, c10, c11, c12, c13⟩ :=
             createLink_ok s1 p1 s.nodes.size root st en [Poss.nonterm pid kids] hnh hr1 hrep1
+              (by
+                intro p hp'
+                simp only [List.mem_singleton] at hp'
+                subst hp'
+                obtain ⟨x, hx⟩ := hx
+                refine ⟨pr, head, hp, hkl, hk.same (Same.of_ext p2), ⟨x, by rw [(p2.same head hh).1]; exact hx⟩, ?_, ?_⟩
+                · rw [(p2.same root hr).1, p3]; exact hg
+                · rw [(p2.same head hh).2.1, p3])
           generalize createLink s1 s.nodes.size root st en [Poss.nonterm pid kids] = res at c1 c2 c3 c4 c5 c6 c7 c8 c9 c10 c11 c12 c13
           obtain ⟨s2, created, lid⟩ := res
           simp only at c1 c2 c3 c4 c5 c6 c7 c8 c9 c10 c11 c12 c13 ⊢
@@ -791,7 +979,7 @@ theorem reductions_ok (hw : T.wf g = true) (consume : Bool) (P : Nat) :
             | nil => rfl
             | cons a b => rw [hr] at hemp; simp at hemp
           exact ihR s head head pid [] (s.node head).pos (s.node head).pos pr hinv hap hh hh hpos htok hp
-            (by rw [hlen0]; exact Chain.refl s head) hx
+            (by rw [hlen0]; exact Chain.refl s head) hx (.nil _ _ hh hh (NEq.refl s head)) (by rw [hlen0]; rfl)
         · rename_i hemp
           have hlenpos : 1 ≤ pr.rhs.length := by
             cases hr : pr.rhs with
@@ -801,7 +989,7 @@ theorem reductions_ok (hw : T.wf g = true) (consume : Bool) (P : Nat) :
           intro fr hfr
           simp only [List.mem_singleton] at hfr
           subst hfr
-          exact ⟨hh, Chain.refl s head, by simp, hlenpos⟩
+          exact ⟨hh, Chain.refl s head, by simp, hlenpos, .nil _ _ hh hh (NEq.refl s head)⟩
     · -- the path search
       intro s head pid upd frames pr hinv hap hh hpos htok hp hx hupd hframes
       cases frames with
@@ -874,9 +1062,9 @@ theorem reductions_ok (hw : T.wf g = true) (consume : Bool) (P : Nat) :
               exact hparents hpar
         have hrd : RDSpec g T inp consume P head pr.rhs.length (s.node head).st
             (fun sa root kids st en => reduce g T fuel sa head root pid kids st en) := by
-          intro sa root kids st en h1 h2 h3 h4 h5 h6 h7 h8
+          intro sa root kids st en h1 h2 h3 h4 h5 h6 h7 h8 h9 h10
           exact ihR sa head root pid kids st en pr h1 h2 h3 h7 h5 h6 hp h8
-            (by obtain ⟨x, hx⟩ := hx; exact ⟨x, by rw [h4]; exact hx⟩)
+            (by obtain ⟨x, hx⟩ := hx; exact ⟨x, by rw [h4]; exact hx⟩) h9 h10
         rw [parentsFold_eq]
         obtain ⟨q1, q2⟩ := parentsFold_ok hrd fr (fr.length - 1) viaUpd rfl plist s0 rest fr.lastP fr.trav
           hpost0.1 hpost0.2.2 hh0 (by rw [ehd0.1]) (by rw [ehd0.2.1]; exact hpos) (by rw [ehd0.2.2.1]; exact htok)
@@ -1034,6 +1222,96 @@ theorem replay_shift (hw : T.wf g = true) {consume : Bool} (hst hpos toState : N
   · rw [htop]; exact edge_of_shift hx
   · rw [hskip, h4]
 
+/-- What `createLink` does to the graph. -/
+theorem createLink_shape (s : GState) (head root st en : Nat) (poss : List Poss) (hh : head < s.nodes.size)
+    (hpl : ∀ i ∈ s.parents head, i < s.links.size) :
+    (∃ i, i ∈ s.parents head ∧ (s.node (s.link i).root).pos = (s.node root).pos ∧
+      (∀ k, (createLink s head root st en poss).1.node k = s.node k) ∧
+      (∀ k, k ≠ i → (createLink s head root st en poss).1.link k = s.link k) ∧
+      (createLink s head root st en poss).1.link i = { s.link i with poss := (s.link i).poss ++ poss }) ∨
+    ((∀ k, k ≠ head → (createLink s head root st en poss).1.node k = s.node k) ∧
+      (createLink s head root st en poss).1.node head =
+        { s.node head with plinks := (s.node head).plinks ++ [s.links.size] } ∧
+      (∀ k, k < s.links.size → (createLink s head root st en poss).1.link k = s.link k) ∧
+      (createLink s head root st en poss).1.link s.links.size =
+        { head := head, root := root, s := st, e := en, poss := poss }) := by
+  unfold createLink
+  simp only
+  split
+  · rename_i i hfind
+    have hmem : i ∈ s.parents head := List.mem_of_find?_eq_some hfind
+    have hkey := List.find?_some hfind
+    simp only [Bool.and_eq_true, beq_iff_eq] at hkey
+    left
+    refine ⟨i, hmem, hkey.2, fun k => rfl, ?_, ?_⟩
+    · intro k hk; simp only [GState.link]; rw [getD_set_ne _ _ _ _ _ hk]
+    · simp only [GState.link]; rw [getD_set_eq _ _ _ _ (hpl i hmem)]
+  · right
+    simp only
+    refine ⟨?_, ?_, ?_, ?_⟩
+    · intro k hk; simp only [GState.node]; exact getD_set_ne _ _ _ _ _ hk
+    · simp only [GState.node]; exact getD_set_eq _ _ _ _ hh
+    · intro k hk; simp only [GState.link]; exact getD_push_lt _ _ _ _ hk
+    · simp only [GState.link]; exact getD_push_eq _ _ _
+
+/-- Links into a freshly shifted node: they start where their root stands and hold token edges only. -/
+def SNode (s : GState) (n : Nat) : Prop :=
+  ∀ i ∈ (s.node n).plinks, (s.link i).s = (s.node (s.link i).root).pos ∧
+    ∀ p ∈ (s.link i).poss, ∃ a e0, p = Poss.term a (s.link i).s e0
+
+theorem createLink_snode {consume : Bool} (s : GState) (hinv : GInv g T inp consume s) (sh hd a b : Nat)
+    (ps : List Poss) (hsh : sh < s.nodes.size) (hS : SNode s sh)
+    (hps : ∀ p ∈ ps, ∃ t e0, p = Poss.term t a e0) (ha : a = (s.node hd).pos) :
+    (∀ n, n < s.nodes.size → SNode s n → SNode (createLink s sh hd a b ps).1 n) ∧
+      ((createLink s sh hd a b ps).1.node sh).plinks ≠ [] ∧
+      (∀ n, n ≠ sh → ((createLink s sh hd a b ps).1.node n).plinks = (s.node n).plinks) := by
+  have hpl : ∀ i ∈ s.parents sh, i < s.links.size := fun i hi => (hinv.plinks sh hsh i hi).1
+  rcases createLink_shape s sh hd a b ps hsh hpl with ⟨i, hi, hpos, hnode, hlo, hli⟩ | ⟨hno, hnh, hlo, hln⟩
+  · refine ⟨?_, ?_, ?_⟩
+    · intro n hn hSn l hl
+      rw [hnode] at hl
+      obtain ⟨q1, q2⟩ := hSn l hl
+      by_cases hli' : l = i
+      · subst hli'
+        rw [hli, hnode]
+        refine ⟨q1, ?_⟩
+        intro p hp
+        simp only [List.mem_append] at hp
+        rcases hp with hp | hp
+        · exact q2 p hp
+        · obtain ⟨t, e0, rfl⟩ := hps p hp
+          refine ⟨t, e0, ?_⟩
+          have := (hS l hi).1
+          show Poss.term t a e0 = Poss.term t (s.link l).s e0
+          rw [this, hpos, ha]
+      · rw [hlo l hli', hnode]; exact ⟨q1, q2⟩
+    · rw [hnode]; intro he; simp only [GState.parents] at hi; rw [he] at hi; cases hi
+    · intro n _; rw [hnode]
+  · have hnodepos : ∀ k, ((createLink s sh hd a b ps).1.node k).pos = (s.node k).pos := by
+      intro k
+      by_cases hk : k = sh
+      · subst hk; rw [hnh]
+      · rw [hno k hk]
+    refine ⟨?_, ?_, ?_⟩
+    · intro n hn hSn l hl
+      have hcases : l ∈ (s.node n).plinks ∨ (n = sh ∧ l = s.links.size) := by
+        by_cases hk : n = sh
+        · subst hk
+          rw [hnh] at hl
+          simp only [List.mem_append, List.mem_singleton] at hl
+          rcases hl with hl | hl
+          · exact Or.inl hl
+          · exact Or.inr ⟨rfl, hl⟩
+        · rw [hno n hk] at hl; exact Or.inl hl
+      rcases hcases with hl' | ⟨_, rfl⟩
+      · obtain ⟨q1, q2⟩ := hSn l hl'
+        rw [hlo l (hinv.plinks n hn l hl').1, hnodepos]
+        exact ⟨q1, q2⟩
+      · rw [hln, hnodepos]
+        exact ⟨ha, fun p hp => hps p hp⟩
+    · rw [hnh]; simp
+    · intro n hn; rw [hno n hn]
+
 /-- One iteration of the shift loop. -/
 def shiftStep (acc : GState) (hs : Nat × Nat) : GState :=
   let (head, toState) := hs
@@ -1059,16 +1337,43 @@ theorem doShifts_eq (s : GState) : doShifts s =
         { s with active := [],
                  forShifter := (sortDesc s s.forShifter).filter (fun x => tokEnd s x.1 != tokEnd s last.1) }) := rfl
 
+/-- Invariant of the shift loop: every head shifted so far has links, all of them shift links. -/
+def SInv (s : GState) : Prop := ∀ x ∈ s.active, (s.node x.2).plinks ≠ [] ∧ SNode s x.2
+
 theorem shiftStep_ok (hw : T.wf g = true) {consume : Bool} (acc : GState) (head toState E : Nat) (t : Tok)
     (hinv : GInv g T inp consume acc) (hh : head < acc.nodes.size) (ht : (acc.node head).tok = some t)
     (hx : Action.shift toState ∈ T.actions (acc.node head).st t.term) (hE : (acc.node head).pos + t.len = E)
-    (hact : ∀ x ∈ acc.active, (acc.node x.2).pos = E) :
+    (hact : ∀ x ∈ acc.active, (acc.node x.2).pos = E) (hS : SInv acc) :
     GInv g T inp consume (shiftStep acc (head, toState)) ∧ Ext acc (shiftStep acc (head, toState)) ∧
-      ∀ x ∈ (shiftStep acc (head, toState)).active, ((shiftStep acc (head, toState)).node x.2).pos = E := by
+      (∀ x ∈ (shiftStep acc (head, toState)).active, ((shiftStep acc (head, toState)).node x.2).pos = E) ∧
+      SInv (shiftStep acc (head, toState)) := by
+  have hn := wf_pos hw
   have hN := hinv.nodes head hh
+  have hTok := hN.tok t ht
   have hrep0 : Replay g T inp (acc.node head).st (acc.node head).pos toState E := by
-    rw [← hE]; exact replay_shift hw _ _ _ t (hN.tok t ht) hx
+    rw [← hE]; exact replay_shift hw _ _ _ t hTok hx
   have htend : tokEnd acc head = E := by simp only [tokEnd, ht]; exact hE
+  -- the shift action, by well-formedness
+  have hhlt : (acc.node head).st < T.n := by
+    obtain ⟨st0, r0, hs0, ht0, _⟩ := hN.reach
+    rw [← ht0]; exact hs0.top_lt hn
+  obtain ⟨cell, hcellmem, hcell1, hcell2⟩ := actions_mem hx
+  have hwf := (wf_state hw hhlt).1 cell hcellmem _ hcell2
+  simp only at hwf
+  obtain ⟨_, _, hsymT, hneS⟩ := hwf
+  rw [hcell1] at hsymT hneS
+  obtain ⟨k1, k2, _, k4⟩ := hTok
+  obtain ⟨hm1, hm2⟩ := k2 hneS
+  have hts : t.s = (acc.node head).pos := by rw [k1, k4]
+  -- the fresh possibility
+  have hterm : ∀ (S : GState) (n : Nat), (S.node head).st = (acc.node head).st →
+      (S.node head).pos = (acc.node head).pos → (S.node n).st = toState → (S.node n).pos = E →
+      PossOK g T inp S n head (Poss.term (acc.tokTerm head) (acc.node head).pos (tokEnd acc head)) := by
+    intro S n e1 e2 e3 e4
+    rw [tokTerm_of_tok ht]
+    refine ⟨by rw [e1, e3]; exact hx, by rw [e2]; exact k4.symm, ⟨t.len, by rw [← hts]; exact hm1, hm2, ?_⟩, ?_⟩
+    · rw [htend, ← hE]
+    · rw [e4, htend]
   simp only [shiftStep]
   cases hsh : acc.headActive toState with
   | some sh =>
@@ -1076,21 +1381,73 @@ theorem shiftStep_ok (hw : T.wf g = true) {consume : Bool} (acc : GState) (head 
     have hmem := mem_of_headActive hsh
     obtain ⟨hshlt, hshst⟩ := hinv.active _ hmem
     have hshpos := hact _ hmem
-    simp only at hshlt hshst hshpos
+    obtain ⟨hshne, hshS⟩ := hS _ hmem
+    simp only at hshlt hshst hshpos hshne hshS
     have hrep : Replay g T inp (acc.node head).st (acc.node head).pos (acc.node sh).st (acc.node sh).pos := by
       rw [hshst, hshpos]; exact hrep0
-    have fin : ∀ a b c, GInv g T inp consume (createLink acc sh head a b c).1 ∧ Ext acc (createLink acc sh head a b c).1 ∧
-        ∀ x ∈ (createLink acc sh head a b c).1.active, ((createLink acc sh head a b c).1.node x.2).pos = E := by
-      intro a b c
-      obtain ⟨c1, c2, _, _, _, c6, _⟩ := createLink_ok acc hinv sh head a b c hshlt hh hrep
-      refine ⟨c1, c2, ?_⟩
-      intro x hx'
-      rw [c6] at hx'
-      rw [(c2.same x.2 (hinv.active x hx').1).2.1]
-      exact hact x hx'
+    have fin : ∀ a b c, (∀ p ∈ c, PossOK g T inp acc sh head p) → (∀ p ∈ c, ∃ t' e0, p = Poss.term t' a e0) →
+        a = (acc.node head).pos →
+        GInv g T inp consume (createLink acc sh head a b c).1 ∧ Ext acc (createLink acc sh head a b c).1 ∧
+        (∀ x ∈ (createLink acc sh head a b c).1.active, ((createLink acc sh head a b c).1.node x.2).pos = E) ∧
+        SInv (createLink acc sh head a b c).1 := by
+      intro a b c hc1 hc2 hc3
+      obtain ⟨c1, c2, _, _, _, c6, _⟩ := createLink_ok acc hinv sh head a b c hshlt hh hrep hc1
+      obtain ⟨d1, d2, d3⟩ := createLink_snode acc hinv sh head a b c hshlt hshS hc2 hc3
+      refine ⟨c1, c2, ?_, ?_⟩
+      · intro x hx'
+        rw [c6] at hx'
+        rw [(c2.same x.2 (hinv.active x hx').1).2.1]
+        exact hact x hx'
+      · intro x hx'
+        rw [c6] at hx'
+        obtain ⟨q1, q2⟩ := hS x hx'
+        refine ⟨?_, d1 x.2 (hinv.active x hx').1 q2⟩
+        by_cases hxs : x.2 = sh
+        · rw [hxs]; exact d2
+        · rw [d3 x.2 hxs]; exact q1
     split
-    · exact fin _ _ _
-    · exact fin _ _ _
+    · -- a further link into an already shifted head: the first link's token edges are reused
+      rename_i hfs
+      simp only [beq_iff_eq] at hfs
+      obtain ⟨l0, hl0mem, hl0eq⟩ : ∃ l0, l0 ∈ (acc.node sh).plinks ∧ (acc.node sh).plinks.headD 0 = l0 := by
+        cases hpl : (acc.node sh).plinks with
+        | nil => exact absurd hpl hshne
+        | cons a rest => exact ⟨a, by simp, rfl⟩
+      rw [hl0eq] at hfs ⊢
+      obtain ⟨s1, s2⟩ := hshS l0 hl0mem
+      obtain ⟨m1, m2, m3⟩ := hinv.plinks sh hshlt l0 hl0mem
+      obtain ⟨n1, n2, _⟩ := hinv.links l0 m1
+      apply fin
+      · intro p hp
+        obtain ⟨a0, e0, rfl⟩ := s2 p hp
+        obtain ⟨w1, w2, w3, w4⟩ := hinv.poss l0 m1 _ hp
+        -- the terminal is the head's token symbol
+        have hrlt : (acc.node (acc.link l0).root).st < T.n := by
+          obtain ⟨st0, r0, hs0, ht0, _⟩ := (hinv.nodes _ n2).reach
+          rw [← ht0]; exact hs0.top_lt hn
+        obtain ⟨cell', hcm', hc1', hc2'⟩ := actions_mem w1
+        have hwf' := (wf_state hw hrlt).1 cell' hcm' _ hc2'
+        simp only at hwf'
+        obtain ⟨_, _, hsym', _⟩ := hwf'
+        rw [hc1', m2, hshst, hsymT] at hsym'
+        have ha0 : a0 = t.term := by injection hsym' with h; exact h.symm
+        refine ⟨?_, ?_, w3, ?_⟩
+        · rw [hshst, ha0]; exact hx
+        · rw [hfs]; exact k4.symm
+        · rw [← m3]; exact w4
+      · intro p hp
+        obtain ⟨a0, e0, rfl⟩ := s2 p hp
+        exact ⟨a0, e0, rfl⟩
+      · exact hfs
+    · apply fin
+      · intro p hp
+        simp only [List.mem_singleton] at hp
+        subst hp
+        exact hterm acc sh rfl rfl hshst hshpos
+      · intro p hp
+        simp only [List.mem_singleton] at hp
+        exact ⟨_, _, hp⟩
+      · rfl
   | none =>
     simp only
     let x : GNode := { st := toState, fr := (acc.node head).fr + 1, pos := tokEnd acc head }
@@ -1100,8 +1457,11 @@ theorem shiftStep_ok (hw : T.wf g = true) {consume : Bool} (acc : GState) (head 
       obtain ⟨tr, r', hs', hp'⟩ := hrep0 st0 r0 hs0 ht0 hp0
       exact ⟨_, r', hs', by simp [topOf, x], by rw [hp']; simp [x, htend]⟩
     obtain ⟨p1, p2, p3⟩ := pushNode_ok acc hinv x hxok rfl
-    generalize hs1 : ({ acc with nodes := acc.nodes.push x } : GState) = sP at p1 p2 p3
+    have hnodeO0 : ∀ k, k < acc.nodes.size → ({ acc with nodes := acc.nodes.push x } : GState).node k = acc.node k := by
+      intro k hk; simp only [GState.node]; exact getD_push_lt _ _ _ _ hk
+    generalize hs1 : ({ acc with nodes := acc.nodes.push x } : GState) = sP at p1 p2 p3 hnodeO0
     have hact1 : sP.active = acc.active := by rw [← hs1]
+    have hlinkP : ∀ k, sP.link k = acc.link k := by intro k; rw [← hs1]; rfl
     have hszP : acc.nodes.size < sP.nodes.size := by rw [← hs1]; simp
     have hinv1 : GInv g T inp consume { sP with active := acc.active ++ [(toState, acc.nodes.size)] } := by
       refine p1.graph_eq rfl rfl ?_ p1.forActor p1.forShifter p1.accepted
@@ -1115,6 +1475,7 @@ theorem shiftStep_ok (hw : T.wf g = true) {consume : Bool} (acc : GState) (head 
     rw [hgoal]
     generalize hs2 : ({ sP with active := acc.active ++ [(toState, acc.nodes.size)] } : GState) = s1 at hinv1
     have hnode1 : ∀ i, s1.node i = sP.node i := by intro i; rw [← hs2]; rfl
+    have hlink1 : ∀ i, s1.link i = acc.link i := by intro i; rw [← hs2]; exact hlinkP i
     have hsz1 : s1.nodes.size = sP.nodes.size := by rw [← hs2]
     have hact2 : s1.active = acc.active ++ [(toState, acc.nodes.size)] := by rw [← hs2]
     have hext1 : Ext acc s1 := by
@@ -1126,19 +1487,52 @@ theorem shiftStep_ok (hw : T.wf g = true) {consume : Bool} (acc : GState) (head 
       rw [(hext1.same head hh).1, (hext1.same head hh).2.1, hnode1, p3]
       show Replay g T inp _ _ toState (tokEnd acc head)
       rw [htend]; exact hrep0
+    have hnhlt : acc.nodes.size < s1.nodes.size := by rw [hsz1]; exact hszP
+    -- shift-link shape of the old heads and (vacuously) of the new one
+    have hSold : ∀ n, n < acc.nodes.size → SNode acc n → SNode s1 n := by
+      intro n hn' hSn l hl
+      rw [hnode1, hnodeO0 n hn'] at hl
+      obtain ⟨q1, q2⟩ := hSn l hl
+      obtain ⟨m1, _, _⟩ := hinv.plinks n hn' l hl
+      obtain ⟨_, n2, _⟩ := hinv.links l m1
+      rw [hlink1, hnode1, hnodeO0 _ n2]
+      exact ⟨q1, q2⟩
+    have hSnew : SNode s1 acc.nodes.size := by
+      intro l hl
+      rw [hnode1, p3] at hl
+      cases hl
     obtain ⟨c1, c2, _, _, _, c6, _⟩ := createLink_ok s1 hinv1 acc.nodes.size head (acc.node head).pos
       (tokEnd acc head) [Poss.term (acc.tokTerm head) (acc.node head).pos (tokEnd acc head)]
-      (by rw [hsz1]; exact hszP) (Nat.lt_of_lt_of_le hh hext1.size) hrep1
-    refine ⟨c1, hext1.trans c2, ?_⟩
-    intro y hy
-    rw [c6, hact2] at hy
-    simp only [List.mem_append, List.mem_singleton] at hy
-    rcases hy with hy | rfl
-    · have hy1 := (hinv.active y hy).1
-      rw [((hext1.trans c2).same y.2 hy1).2.1]; exact hact y hy
-    · show ((createLink s1 _ _ _ _ _).1.node acc.nodes.size).pos = E
-      rw [(c2.same acc.nodes.size (by rw [hsz1]; exact hszP)).2.1, hnode1, p3]
-      exact htend
+      hnhlt (Nat.lt_of_lt_of_le hh hext1.size) hrep1
+      (by
+        intro p hp
+        simp only [List.mem_singleton] at hp
+        subst hp
+        exact hterm s1 acc.nodes.size (hext1.same head hh).1 (hext1.same head hh).2.1
+          (by rw [hnode1, p3]) (by rw [hnode1, p3]; exact htend))
+    obtain ⟨d1, d2, d3⟩ := createLink_snode s1 hinv1 acc.nodes.size head (acc.node head).pos
+      (tokEnd acc head) [Poss.term (acc.tokTerm head) (acc.node head).pos (tokEnd acc head)]
+      hnhlt hSnew (by intro p hp; simp only [List.mem_singleton] at hp; exact ⟨_, _, hp⟩)
+      (hext1.same head hh).2.1.symm
+    refine ⟨c1, hext1.trans c2, ?_, ?_⟩
+    · intro y hy
+      rw [c6, hact2] at hy
+      simp only [List.mem_append, List.mem_singleton] at hy
+      rcases hy with hy | rfl
+      · have hy1 := (hinv.active y hy).1
+        rw [((hext1.trans c2).same y.2 hy1).2.1]; exact hact y hy
+      · show ((createLink s1 _ _ _ _ _).1.node acc.nodes.size).pos = E
+        rw [(c2.same acc.nodes.size hnhlt).2.1, hnode1, p3]
+        exact htend
+    · intro y hy
+      rw [c6, hact2] at hy
+      simp only [List.mem_append, List.mem_singleton] at hy
+      rcases hy with hy | rfl
+      · have hy1 := (hinv.active y hy).1
+        obtain ⟨q1, q2⟩ := hS y hy
+        refine ⟨?_, d1 y.2 (Nat.lt_of_lt_of_le hy1 hext1.size) (hSold y.2 hy1 q2)⟩
+        rw [d3 y.2 (by omega), hnode1, hnodeO0 y.2 hy1]; exact q1
+      · exact ⟨d2, d1 _ hnhlt hSnew⟩
 
 /-- `_do_shifts`. -/
 theorem doShifts_ok (hw : T.wf g = true) {consume : Bool} (s : GState) (hinv : GInv g T inp consume s) :
@@ -1154,23 +1548,23 @@ theorem doShifts_ok (hw : T.wf g = true) {consume : Bool} (s : GState) (hinv : G
     simp only
     generalize hE : tokEnd s last.1 = E
     have hgen : ∀ (l : List (Nat × Nat)), (∀ y ∈ l, y ∈ s.forShifter ∧ tokEnd s y.1 = E) →
-        ∀ acc, GInv g T inp consume acc → Ext s acc → (∀ x ∈ acc.active, (acc.node x.2).pos = E) →
+        ∀ acc, GInv g T inp consume acc → Ext s acc → (∀ x ∈ acc.active, (acc.node x.2).pos = E) → SInv acc →
           GInv g T inp consume (l.foldl shiftStep acc) ∧
             ∀ x ∈ (l.foldl shiftStep acc).active, ((l.foldl shiftStep acc).node x.2).pos = E := by
       intro l
       induction l with
-      | nil => intro _ acc h1 _ h3; exact ⟨h1, h3⟩
+      | nil => intro _ acc h1 _ h3 _; exact ⟨h1, h3⟩
       | cons y l ih =>
-        intro hl' acc h1 h2 h3
+        intro hl' acc h1 h2 h3 h4
         simp only [List.foldl_cons]
         obtain ⟨hy1, hy2⟩ := hl' y (by simp)
         obtain ⟨hh, t, ht, hx⟩ := hinv.forShifter y hy1
         obtain ⟨e1, e2, e3, _⟩ := h2.same y.1 hh
         have hEy : (s.node y.1).pos + t.len = E := by
           simp only [tokEnd, ht] at hy2; exact hy2
-        obtain ⟨q1, q2, q3⟩ := shiftStep_ok hw acc y.1 y.2 E t h1 (Nat.lt_of_lt_of_le hh h2.size)
-          (by rw [e3]; exact ht) (by rw [e1]; exact hx) (by rw [e2]; exact hEy) h3
-        exact ih (fun z hz => hl' z (by simp [hz])) _ q1 (h2.trans q2) q3
+        obtain ⟨q1, q2, q3, q4⟩ := shiftStep_ok hw acc y.1 y.2 E t h1 (Nat.lt_of_lt_of_le hh h2.size)
+          (by rw [e3]; exact ht) (by rw [e1]; exact hx) (by rw [e2]; exact hEy) h3 h4
+        exact ih (fun z hz => hl' z (by simp [hz])) _ q1 (h2.trans q2) q3 q4
     have hres := hgen ((sortDesc s s.forShifter).filter (fun x => tokEnd s x.1 == E)).reverse
       (by
         intro y hy
@@ -1183,7 +1577,7 @@ theorem doShifts_ok (hw : T.wf g = true) {consume : Bool} (s : GState) (hinv : G
           simp only [List.mem_filter] at hx
           exact hinv.forShifter x (mem_sortDesc s _ x hx.1)) hinv.accepted)
       ⟨Nat.le_refl _, fun _ _ => ⟨rfl, rfl, rfl, rfl⟩, Nat.le_refl _, fun _ _ => ⟨rfl, rfl⟩⟩
-      (by intro x hx; cases hx)
+      (by intro x hx; cases hx) (by intro x hx; cases hx)
     exact ⟨hres.1, E, hres.2⟩
 
 /-! ### Lookaheads -/
@@ -1223,7 +1617,15 @@ theorem GInv.upd {consume : Bool} {s s' : GState} (h : GInv g T inp consume s) (
     (ha : s'.active = s.active) (hf : s'.forActor = s.forActor) (hs : s'.forShifter = s.forShifter)
     (hc : s'.accepted = s.accepted) : GInv g T inp consume s' := by
   have hlink : ∀ i, s'.link i = s.link i := by intro i; simp [GState.link, hu.links]
-  refine ⟨hn, ?_, ?_, ?_, ?_, ?_, ?_⟩
+  have hsame : Same inp s s' := ⟨hu.size, fun i hi => ⟨(hu.old i hi).1, (hu.old i hi).2.1⟩,
+    by rw [hu.links]; exact Nat.le_refl _, fun i _ => by rw [hlink]; exact ⟨rfl, rfl⟩⟩
+  have hP : ∀ k, k < s'.links.size → ∀ p ∈ (s'.link k).poss, PossOK g T inp s' (s'.link k).head (s'.link k).root p := by
+    intro k hk p hp
+    rw [hu.links] at hk
+    rw [hlink] at hp ⊢
+    obtain ⟨l1, l2, _⟩ := h.links k hk
+    exact (h.poss k hk p hp).same hsame l1 l2
+  refine ⟨hn, ?_, ?_, ?_, ?_, ?_, ?_, hP⟩
   · intro i hi
     rw [hu.links] at hi
     obtain ⟨l1, l2, l3⟩ := h.links i hi
@@ -1657,15 +2059,14 @@ theorem accepted_sound (hw : T.wf g = true) {consume : Bool} (s : GState) (hinv 
     rw [hsym] at hd
     exact ⟨t1, r, hd, fun hc => by rw [hskip, ← b1]; exact b3 hstop hc⟩
 
-/-- **Soundness of the GLR driver model**: when it answers with a forest, the input is a sentence
-(with `consume_input`), and in any case a prefix of it derives from the start symbol. -/
-theorem parseGLR_sound (hw : T.wf g = true) (hidem : ∀ p, inp.skip (inp.skip p) = inp.skip p)
+/-- The final state of an accepting run satisfies the invariant and has an accepted head. -/
+theorem parseGLR_inv' (hw : T.wf g = true) (hidem : ∀ p, inp.skip (inp.skip p) = inp.skip p)
     (consume lexDis : Bool) (fuel : Nat) (sF : GState)
     (h : parseGLR g T inp consume lexDis fuel = .forest sF) :
-    (∃ t, IsPrefixParseOf g inp t) ∧ (consume = true → Sentence g inp) := by
+    GInv g T inp consume sF ∧ sF.accepted ≠ [] := by
   unfold parseGLR at h
   have hinit : MInv g T inp consume { nodes := #[{ st := 0, fr := 0, pos := 0 }], active := [(0, 0)] } := by
-    refine ⟨⟨?_, ?_, ?_, ?_, ?_, ?_, ?_⟩, 0, ?_⟩
+    refine ⟨⟨?_, ?_, ?_, ?_, ?_, ?_, ?_, by intro i hi; simp at hi⟩, 0, ?_⟩
     · intro i hi
       have : i = 0 := by simpa using hi
       subst this
@@ -1686,10 +2087,196 @@ theorem parseGLR_sound (hw : T.wf g = true) (hidem : ∀ p, inp.skip (inp.skip p
       simp only [List.mem_singleton] at hx
       subst hx
       rfl
-  obtain ⟨q1, q2⟩ := mainLoop_ok hw hidem fuel fuel _ sF hinit h
+  exact mainLoop_ok hw hidem fuel fuel _ sF hinit h
+
+theorem parseGLR_inv (hw : T.wf g = true) (hidem : ∀ p, inp.skip (inp.skip p) = inp.skip p)
+    (consume lexDis : Bool) (fuel : Nat) (sF : GState)
+    (h : parseGLR g T inp consume lexDis fuel = .forest sF) : GInv g T inp consume sF :=
+  (parseGLR_inv' hw hidem consume lexDis fuel sF h).1
+
+/-- **Soundness of the GLR driver model**: when it answers with a forest, the input is a sentence
+(with `consume_input`), and in any case a prefix of it derives from the start symbol. -/
+theorem parseGLR_sound (hw : T.wf g = true) (hidem : ∀ p, inp.skip (inp.skip p) = inp.skip p)
+    (consume lexDis : Bool) (fuel : Nat) (sF : GState)
+    (h : parseGLR g T inp consume lexDis fuel = .forest sF) :
+    (∃ t, IsPrefixParseOf g inp t) ∧ (consume = true → Sentence g inp) := by
+  obtain ⟨q1, q2⟩ := parseGLR_inv' hw hidem consume lexDis fuel sF h
   obtain ⟨a, ha⟩ := List.exists_mem_of_ne_nil _ q2
   obtain ⟨t, e, hd, he⟩ := accepted_sound hw sF q1 a ha
   exact ⟨⟨t, e, hd⟩, fun hc => ⟨t, e, hd, he hc⟩⟩
+
+/-! ### The packed forest -/
+
+mutual
+  /-- The trees packed under a link: one possibility per link, recursively. -/
+  def TreeOf (s : GState) : Nat → Tree → Prop
+    | l, .leaf a st en => Poss.term a st en ∈ (s.link l).poss
+    | l, .node pid _ _ cs => ∃ kids, Poss.nonterm pid kids ∈ (s.link l).poss ∧ TreesOf s kids cs
+  def TreesOf (s : GState) : List Nat → List Tree → Prop
+    | [], [] => True
+    | k :: ks, c :: cs => TreeOf s k c ∧ TreesOf s ks cs
+    | [], _ :: _ => False
+    | _ :: _, [] => False
+end
+
+theorem treesOf_length (s : GState) : ∀ (cs : List Tree) (ks : List Nat), TreesOf s ks cs → ks.length = cs.length
+  | [], [], _ => rfl
+  | [], _ :: _, h => by simp [TreesOf] at h
+  | _ :: _, [], h => by simp [TreesOf] at h
+  | c :: cs, k :: ks, h => by
+    simp only [TreesOf] at h
+    simp only [List.length_cons]
+    rw [treesOf_length s cs ks h.2]
+
+/-- A link with a given tree: every stack ending in the root extends by that tree. -/
+def ReplayT (g : Grammar) (T : Table) (inp : Input) (rs rp hs hp : Nat) (t : Tree) : Prop :=
+  ∀ st r, StackD g inp T st r → topOf st = rs → inp.skip r = inp.skip rp →
+    ∃ r', StackD g inp T ((hs, t) :: st) r' ∧ inp.skip r' = inp.skip hp
+
+def ChainT (g : Grammar) (T : Table) (inp : Input) (s : GState) (a b : Nat) (cs : List Tree) : Prop :=
+  ∀ st r, StackD g inp T st r → topOf st = (s.node a).st → inp.skip r = inp.skip (s.node a).pos →
+    ∃ stk r', StackD g inp T (stk ++ st) r' ∧ stk.reverse.map (·.2) = cs ∧
+      topOf (stk ++ st) = (s.node b).st ∧ inp.skip r' = inp.skip (s.node b).pos
+
+/-- Reducing the top of a stack by a production of the table, with any recorded span. -/
+theorem reduce_stack (hw : T.wf g = true) (stk st : List (Nat × Tree)) (r' pid : Nat) (pr : Prod) (x : Nat)
+    (hs : StackD g inp T (stk ++ st) r') (hlen : stk.length = pr.rhs.length)
+    (hx : Action.reduce pid ∈ T.actions (topOf (stk ++ st)) x) (hp : g.prod? pid = some pr) (state : Nat)
+    (hg : T.goto (topOf st) pr.lhs = some state) (sp ep : Nat) :
+    StackD g inp T ((state, .node pid sp ep (stk.reverse.map (·.2))) :: st) r' := by
+  have hn := wf_pos hw
+  have htop : topOf (stk ++ st) < T.n := hs.top_lt hn
+  obtain ⟨cell, hcellmem, hcell1, hcell2⟩ := actions_mem hx
+  have hwf := (wf_state hw htop).1 cell hcellmem _ hcell2
+  simp only at hwf
+  obtain ⟨pr', hpr', hback⟩ := hwf
+  rw [hp] at hpr'
+  simp only [Option.some.injEq] at hpr'
+  subst hpr'
+  obtain ⟨i, _, hst, hder, _⟩ :=
+    walk_back (g := g) (inp := inp) hn pr.rhs.reverse (topOf (stk ++ st)) (stk ++ st) r' pr.lhs hback hs rfl
+  simp only [List.length_reverse, List.reverse_reverse] at hst hder
+  have hdrop : (stk ++ st).drop pr.rhs.length = st := by rw [← hlen]; simp
+  have htake : (stk ++ st).take pr.rhs.length = stk := by rw [← hlen]; simp
+  rw [hdrop] at hst
+  rw [htake] at hder
+  obtain ⟨gc, hgc, hgc1, hgc2⟩ := goto_mem hg
+  have hst_lt := hst.top_lt hn
+  obtain ⟨h1, h2, h3⟩ := (wf_state hw hst_lt).2 gc hgc
+  rw [hgc2] at h1 h2 h3
+  rw [hgc1] at h3
+  refine StackD.cons state _ _ i r' hst ?_ (edge_of_goto hg) h1 h2
+  rw [h3]
+  exact DerivesSeq.prod pid pr i r' r' sp ep _ [] [] hp hder (DerivesSeq.nil _)
+
+mutual
+  /-- Every tree packed under a link can be pushed on every stack that ends in the link's root. -/
+  theorem tree_replay (hw : T.wf g = true) {consume : Bool} (s : GState) (hinv : GInv g T inp consume s) :
+      ∀ (t : Tree) (l : Nat), l < s.links.size → TreeOf s l t →
+        ReplayT g T inp (s.node (s.link l).root).st (s.node (s.link l).root).pos
+          (s.node (s.link l).head).st (s.node (s.link l).head).pos t
+    | .leaf a st en, l, hl, h => by
+      simp only [TreeOf] at h
+      obtain ⟨w1, w2, ⟨len, w3a, w3b, w3c⟩, w4⟩ := hinv.poss l hl _ h
+      intro stk r hs htop hskip
+      have hn := wf_pos hw
+      have hlt : (s.node (s.link l).root).st < T.n := by rw [← htop]; exact hs.top_lt hn
+      obtain ⟨cell, hcellmem, hcell1, hcell2⟩ := actions_mem w1
+      have hwf := (wf_state hw hlt).1 cell hcellmem _ hcell2
+      simp only at hwf
+      obtain ⟨hs'lt, hs'ne, hs'sym, _⟩ := hwf
+      rw [hcell1] at hs'sym
+      have hr : inp.skip r = st := hskip.trans w2.symm
+      refine ⟨en, StackD.cons _ _ stk r en hs ?_ ?_ hs'lt hs'ne, w4.symm⟩
+      · rw [hs'sym]
+        have := DerivesSeq.tok (g := g) a r len (inp.skip r + len) [] [] (by rw [hr]; exact w3a) w3b
+          (DerivesSeq.nil _)
+        rw [hr, ← w3c] at this
+        exact this
+      · rw [htop]; exact edge_of_shift w1
+    | .node pid sp ep cs, l, hl, h => by
+      simp only [TreeOf] at h
+      obtain ⟨kids, hmem, htrees⟩ := h
+      obtain ⟨pr, e, hp, hkl, hkc, ⟨x, hxr⟩, hg, hpe⟩ := hinv.poss l hl _ hmem
+      intro stk0 r hs htop hskip
+      obtain ⟨stk, r', h1, h2, h3, h4⟩ := trees_replay hw s hinv cs kids _ e htrees hkc stk0 r hs htop hskip
+      have hlen : stk.length = pr.rhs.length := by
+        have := congrArg List.length h2
+        simp only [List.length_map, List.length_reverse] at this
+        rw [this, ← treesOf_length s cs kids htrees, hkl]
+      have := reduce_stack hw stk stk0 r' pid pr x h1 hlen (by rw [h3]; exact hxr) hp
+        (s.node (s.link l).head).st (by rw [htop]; exact hg) sp ep
+      rw [h2] at this
+      exact ⟨r', this, h4.trans hpe⟩
+  theorem trees_replay (hw : T.wf g = true) {consume : Bool} (s : GState) (hinv : GInv g T inp consume s) :
+      ∀ (cs : List Tree) (ks : List Nat) (a b : Nat), TreesOf s ks cs → KChain inp s a ks b →
+        ChainT g T inp s a b cs
+    | [], [], a, b, _, hk => by
+      cases hk with
+      | nil _ _ _ _ hab =>
+        intro st r hs htop hskip
+        exact ⟨[], r, by simpa using hs, rfl, by simpa using htop.trans hab.1, hskip.trans hab.2⟩
+    | [], _ :: _, _, _, h, _ => by simp [TreesOf] at h
+    | _ :: _, [], _, _, h, _ => by simp [TreesOf] at h
+    | c :: cs, k :: ks, a, b, h, hk => by
+      simp only [TreesOf] at h
+      cases hk with
+      | cons _ _ _ _ _ hklt hhd hrt hr rest =>
+        intro st r hs htop hskip
+        obtain ⟨r1, hs1, hp1⟩ := tree_replay hw s hinv c k hklt h.1 st r hs (htop.trans hr.1.symm)
+          (hskip.trans hr.2.symm)
+        obtain ⟨stk, r', q1, q2, q3, q4⟩ := trees_replay hw s hinv cs ks _ b h.2 rest _ r1 hs1
+          (by simp [topOf]) hp1
+        refine ⟨stk ++ [((s.node (s.link k).head).st, c)], r', by simpa using q1, ?_, by simpa using q3, q4⟩
+        simp [q2]
+end
+
+/-- Every tree of the packed forest below an accepted head derives the start symbol over the input. -/
+theorem accepted_trees_sound (hw : T.wf g = true) {consume : Bool} (s : GState) (hinv : GInv g T inp consume s)
+    (a : Nat) (ha : a ∈ s.accepted) (l : Nat) (hl : l ∈ s.parents a) (t : Tree) (ht : TreeOf s l t) :
+    ∃ e, Derives g inp (.nt g.start) 0 e t ∧ (consume = true → inp.skip e = inp.len) := by
+  have hn := wf_pos hw
+  obtain ⟨halt, tok, htok, hacc⟩ := hinv.accepted a ha
+  obtain ⟨m1, m2, m3⟩ := hinv.plinks a halt l hl
+  obtain ⟨n1, n2, _⟩ := hinv.links l m1
+  obtain ⟨st, r, hst, htop, hskip⟩ := (hinv.nodes _ n2).reach
+  obtain ⟨r', hs', hp'⟩ := tree_replay hw s hinv t l m1 ht st r hst htop hskip
+  have hN := hinv.nodes a halt
+  have htlt : (s.node a).st < T.n := by
+    obtain ⟨st0, r0, hs0, ht0, _⟩ := hN.reach
+    rw [← ht0]; exact hs0.top_lt hn
+  obtain ⟨cell, hcellmem, hcell1, hcell2⟩ := actions_mem hacc
+  have hwf := (wf_state hw htlt).1 cell hcellmem _ hcell2
+  simp only at hwf
+  obtain ⟨hc1, hsym, hne, hpreds⟩ := hwf
+  have hstop : tok.term = STOP := by rw [← hcell1]; exact hc1
+  obtain ⟨b1, _, b3, _⟩ := hN.tok tok htok
+  cases hs' with
+  | cons _ _ _ i _ hrest hd hedge hlt1 hne1 =>
+    rw [m2] at hedge hd
+    have h0 := hpreds (topOf st) (hrest.top_lt hn) hedge
+    have hrnil : st = [] := by
+      cases hrest with
+      | nil => rfl
+      | cons s2 _ _ _ _ _ _ _ _ hne2 => simp [topOf] at h0; exact absurd h0 hne2
+    subst hrnil
+    cases hrest
+    rw [hsym] at hd
+    exact ⟨r', hd, fun hc => by rw [hp', m3, ← b1]; exact b3 hstop hc⟩
+
+/-- **Soundness of the packed forest of the GLR driver model**: when the model answers with a forest,
+every tree obtained by choosing one possibility per link below a root link (a link of an accepted
+head) is a derivation tree of the start symbol over the input — of the whole input with
+`consume_input`. -/
+theorem parseGLR_forest_sound (hw : T.wf g = true) (hidem : ∀ p, inp.skip (inp.skip p) = inp.skip p)
+    (consume lexDis : Bool) (fuel : Nat) (sF : GState)
+    (h : parseGLR g T inp consume lexDis fuel = .forest sF) :
+    ∀ a ∈ sF.accepted, ∀ l ∈ sF.parents a, ∀ t, TreeOf sF l t →
+      IsPrefixParseOf g inp t ∧ (consume = true → IsParseOf g inp t) := by
+  intro a ha l hl t ht
+  have hinv := parseGLR_inv hw hidem consume lexDis fuel sF h
+  obtain ⟨e, hd, he⟩ := accepted_trees_sound hw sF hinv a ha l hl t ht
+  exact ⟨⟨e, hd⟩, fun hc => ⟨e, hd, he hc⟩⟩
 
 end GLR
 end Pg
